@@ -4,7 +4,7 @@ from fractions import Fraction as F
 import msuite
 
 PID = 'C14'
-TAGS = ['tbegin', 'tick', 'tbodyend', 'caught', 'log']
+TAGS = ['tbegin', 'tick', 'tbodyend', 'tend', 'caught', 'log']
 RULE = ('1-3 tickers (some in volatile child tasks closed at the end of their scope while the run continues) (interval or delay; periods 0, 1/2, 1, 2; 1-5 iterations) whose body runs take shorter than, exactly, or '
         'longer than the period (durations drawn from the same grid), started at times 0/1/2 or after a delay, alone, nested in '
         'until()-scopes with deadlines, or next to other tickers and a spinner activity; IntervalExceeded and ValueError '
